@@ -144,7 +144,10 @@ impl<'a> Packet<'a> {
         offset: &mut usize,
         items_count: u16,
     ) -> crate::Result<Vec<T>> {
-        let mut section_items = Vec::with_capacity(items_count as usize);
+        // the count comes from two attacker-controlled header bytes: never reserve more entries than there are
+        // bytes left to parse them from
+        let remaining = data.len().saturating_sub(*offset);
+        let mut section_items = Vec::with_capacity((items_count as usize).min(remaining));
 
         for _ in 0..items_count {
             section_items.push(T::parse(data, offset)?);
